@@ -41,12 +41,17 @@ def overrides(root, pth):
         shutil.rmtree(tmp, ignore_errors=True)
 
 
+_BASE = {}
+
+
 def one(job):
     prop, ov = job
     ix = _G['ix']
     try:
-        st0, R0 = run_property(prop, 'quick', quiet=True, base=ix, evidence=False)
-        base = _statuses(R0)
+        if prop not in _BASE:
+            st0, R0 = run_property(prop, 'quick', quiet=True, base=ix, evidence=False)
+            _BASE[prop] = _statuses(R0)
+        base = _BASE[prop]
         st, R = run_property(prop, 'quick', overrides=ov, quiet=True, base=ix, evidence=False)
         now = _statuses(R)
     except Exception as e:  # noqa
@@ -55,10 +60,16 @@ def one(job):
     for k, v in now.items():
         if v in (VIOL, ERR) and base.get(k) != v:
             ch.append((v, k[0], k[1]))
+    nowids = {(k[0], k[1]) for k in now}
     for k, v in base.items():
-        if k not in now:
+        if (k[0], k[1]) not in nowids:
             ch.append(('GONE', k[0], k[1]))
     return prop, st, sorted(set(ch))
+
+
+def _job(j):
+    pth, p, ov = j
+    return (pth,) + tuple(one((p, ov)))
 
 
 def main():
@@ -77,6 +88,8 @@ def main():
     _G['ix'] = ix
     result = {}
     ctx = multiprocessing.get_context('fork')
+    jobs = []
+    ovs = {}
     for pth in args:
         ov, why = overrides(ix.root, pth)
         if ov is None:
@@ -86,8 +99,15 @@ def main():
         bad = [rel for rel, txt in ov.items() if _compiles(txt, rel) is not None]
         if bad:
             print('%s: does not compile: %s' % (pth, bad))
-        with ctx.Pool(min(16, len(props))) as pool:
-            res = pool.map(one, [(p, ov) for p in props])
+        ovs[pth] = ov
+        for p in props:
+            jobs.append((pth, p))
+    with ctx.Pool(16) as pool:
+        res_all = pool.map(_job, [(pth, p, ovs[pth]) for pth, p in jobs], chunksize=1)
+    for pth in args:
+        if pth not in ovs:
+            continue
+        res = [r[1:] for r in res_all if r[0] == pth]
         viol = {p: [c for c in ch if c[0] == VIOL] for p, st, ch in res if st != 'crash'}
         err = {p: [c for c in ch if c[0] in (ERR, 'GONE')] for p, st, ch in res if st != 'crash'}
         crash = {p: ch for p, st, ch in res if st == 'crash'}
